@@ -171,7 +171,10 @@ def _one_case(rng, k, force=None):
     metric = force.get("metric", rng.choice(RATE_FIRST) if rng.random() < 0.5 else METRICS[k % len(METRICS)])
     case = {"ncols": ncols, "rows": rows, "labels": label_kind, "pos_label": pos_label, "metric": metric,
             "thr": force.get("thr", _thresholds(rng, xs)), "normalize": force.get("normalize", rng.choice([None, "by_overall", "by_min", "by_min"])),
-            "sc": sc, "ec": ec, "boot": boot, "stream": stream}
+            "sc": sc, "ec": ec, "boot": boot, "stream": stream,
+            # the DataFrame's row index (default RangeIndex / a permutation of it as after sort_values or a shuffle / labels
+            # outside 0..n-1 / strings / duplicate labels): rows are what matter, never their index labels
+            "index": rng.choice([None, None, "perm", "perm", "offset", "str", "dup"]), "index_seed": rng.randint(0, 10**6)}
     return case
 
 
@@ -249,6 +252,14 @@ def run_impl(case):
     data["label"] = [r[1] for r in case["rows"]]
     data["score"] = [fl(r[2]) for r in case["rows"]]
     df = pd.DataFrame(data)
+    if case.get("index"):
+        import random as _random
+        n_ = len(df)
+        g_ = _random.Random(case.get("index_seed", 0))
+        perm_ = list(range(n_))
+        g_.shuffle(perm_)
+        df.index = {"perm": perm_, "offset": [100 + 3 * i for i in perm_], "str": [f"r{i}" for i in perm_],
+                    "dup": [i // 2 for i in range(n_)]}[case["index"]]
     thr = case["thr"]
     threshold = [fl(t) for t in thr] if isinstance(thr, list) else fl(thr)
     kwargs = dict(data=df, group_columns=group_columns(case), label_column="label", score_column="score", metric=case["metric"],
